@@ -32,12 +32,12 @@ PLAN = {
         'note': COMMON_TRUST + 'Not decided: panics inside okkhor/regex/poriborton/emojicon, sort panic-freedom for non-total comparators, RefCell double borrow, time complexity beyond termination; the only T2 function left is include_from_dictionary (flat_map: no vstd model); search_dictionary / clean_string are proved in unit fixed_search; internal_backspace_step is proved in unit fixed_reph (std contracts for Take::fold, String::len / truncate in byte offsets are T3); SplittedString::split is proved in unit split (std contracts of str::find with a closure and char_indices are T3; the UTF-8 offset facts are proved from vstd::utf8).',
     },
     'C02': {
-        'bounded': ['phonetic_api', 'fixed_api'],
+        'bounded': ['phonetic_api', 'fixed_api', 'ansi'],
         'level': 'proof',
         'units': ['rank', 'fixed_session', 'phon', 'pmeth'],
         'technique': 'Verus postcondition sg_ok (len>=1, selection<len, auxiliary==composition) on every event function; read-out preconditions',
         'claim': 'Proof that every key/backspace event of both methods returns a suggestion with >=1 candidate, selection < length (given a selection valid for the list shown before) and auxiliary text equal to the composition, that every terminating event (commit, finish, emptying backspace) leaves an empty composition -- so "the composition" is the keys since the last terminating event, nothing older -- and that every index below the length is readable (read-out functions verified with exactly those preconditions).',
-        'note': COMMON_TRUST + 'std list-length specs (sort, dedup, truncate) assumed.',
+        'note': COMMON_TRUST + 'std list-length specs (sort, dedup, truncate) assumed.  Pre-edit read-out with ANSI on is proved total only for texts the Bijoy converter of the dependency is defined on (precondition bj_ok): it panics on the vowel sign U+09C4 -- recorded open known finding C02-ansi-vocalic-rr (known_findings.json), re-executed on every run; the bounded check ansi reads every key of both layouts with ANSI on and reports any other failing read-out.',
     },
     'C03': {
         'bounded': ['split', 'phonetic_api'], 'kani': ['k_keycode_to_char'],
@@ -149,7 +149,7 @@ PLAN = {
         'units': ['rank', 'fixed_session', 'phon', 'pmeth'],
         'technique': 'Verus: ANSI clauses of the list functions, get_pre_edit_text == bijoy(candidate) / candidate, option getter',
         'claim': 'Proof that in ANSI mode neither method adds emoji, emoticon or raw-English candidates (English getter = option and not ANSI), that every Suggestion carries the ANSI flag of the configuration, and that pre-edit text is bijoy(candidate) with the flag and the candidate itself without.',
-        'note': COMMON_TRUST + 'Statements about poriborton output (no Bengali-block code point, totality on the dictionary) are not decided.',
+        'note': COMMON_TRUST + 'Statements about poriborton output (no Bengali-block code point, totality on the dictionary) are not decided by proof; the converter is NOT total: open known finding C16-ansi-vocalic-rr (it panics on the vowel sign U+09C4), carved out of the bounded key sweep in check ansi, which reports every other failing read-out.',
     },
     'C17': {
         'bounded': ['smart_quote', 'split', 'update_engine'],
